@@ -7,6 +7,7 @@ import (
 	"go/ast"
 	"go/token"
 	"go/types"
+	"os"
 	"sort"
 	"strings"
 
@@ -113,10 +114,51 @@ func (w *World) closureOf(f *types.Func) *ssa.Function {
 // calleesIn: names of the functions/methods called in cl and its closures.
 func (w *World) calleeNames(cl *ssa.Function) map[string][]*ssa.Call {
 	out := map[string][]*ssa.Call{}
+	w.calleeNamesInto(cl, out, 0, map[*ssa.Function]bool{})
+	return out
+}
+
+// isPlainHelper: a package-level function that is neither a value conversion,
+// nor asks the pattern cache itself, nor implements an XPath function or a
+// query: a piece of an implementation that was given a name.
+func (w *World) isPlainHelper(f *ssa.Function) bool {
+	if f == nil || !w.inPkg(f) || f.Parent() != nil || f.Signature.Recv() != nil || len(f.Blocks) == 0 {
+		return false
+	}
+	truth, number, str := w.conversionFns()
+	switch f.String() {
+	case truth, number, str:
+		return false
+	}
+	for _, g := range w.regexpGetters() {
+		if g == f {
+			return false
+		}
+	}
+	if _, isImpl := w.implNames()[f]; isImpl {
+		return false
+	}
+	// helpers that work on queries (argument cloning, node tests) are shared infrastructure
+	for i := 0; i < f.Signature.Params().Len(); i++ {
+		if w.isQueryType(f.Signature.Params().At(i).Type()) {
+			return false
+		}
+	}
+	return true
+}
+
+func (w *World) calleeNamesInto(cl *ssa.Function, out map[string][]*ssa.Call, depth int, seen map[*ssa.Function]bool) {
+	if seen[cl] {
+		return
+	}
+	seen[cl] = true
 	eachInstr(cl, true, func(_ *ssa.Function, in ssa.Instruction) {
 		c, ok := in.(*ssa.Call)
 		if !ok {
 			return
+		}
+		if f := c.Call.StaticCallee(); depth < 2 && w.isPlainHelper(f) {
+			w.calleeNamesInto(f, out, depth+1, seen)
 		}
 		if c.Call.IsInvoke() {
 			if w.isNavType(c.Call.Value.Type()) {
@@ -134,7 +176,6 @@ func (w *World) calleeNames(cl *ssa.Function) map[string][]*ssa.Call {
 			out["builtin:"+b.Name()] = append(out["builtin:"+b.Name()], c)
 		}
 	})
-	return out
 }
 
 type primSpec struct {
@@ -234,7 +275,9 @@ func ruleBPrim(w *World, r *Report) {
 					if want < 0 || i >= len(args) {
 						continue
 					}
+					w.originScope = rootFn(cl)
 					fv := w.originFreeVar(args[i])
+					w.originScope = nil
 					if fv == nil {
 						probs = append(probs, fmt.Sprintf("argument %d of %s does not derive from an argument of %s()", i+1, strings.TrimPrefix(callee, pkgp), name))
 						continue
@@ -476,42 +519,10 @@ func (w *World) checkBeforeAfterFlag(r *Report) {
 			}
 			return true
 		})
-		// in the closure: flag true => slice from i+len(word) to the end; false => prefix up to i
-		okSel := false
-		for _, f := range w.funcBindings()["substring-after"] {
-			cl := w.closureOf(f)
-			if cl == nil {
-				continue
-			}
-			for _, b := range cl.Blocks {
-				ifi := blockIf(b)
-				if ifi == nil {
-					continue
-				}
-				ld, isL := ifi.Cond.(*ssa.UnOp)
-				if !isL {
-					continue
-				}
-				if _, isFV := ld.X.(*ssa.FreeVar); !isFV {
-					continue
-				}
-				// true successor returns a slice with Low set and High nil; false successor Low nil, High set
-				tOK, fOK := false, false
-				for _, in := range b.Succs[0].Instrs {
-					if s, isS := in.(*ssa.Slice); isS && s.Low != nil && s.High == nil {
-						tOK = true
-					}
-				}
-				for _, in := range b.Succs[1].Instrs {
-					if s, isS := in.(*ssa.Slice); isS && s.Low == nil && s.High != nil {
-						fOK = true
-					}
-				}
-				if tOK && fOK {
-					okSel = true
-				}
-			}
-		}
+		// the implementations followed with the flag their build passes: every
+		// non-constant result of substring-after is a suffix (a slice with a low
+		// bound only), of substring-before a prefix (a high bound only)
+		okSel := w.beforeAfterByInterp()
 		if ok && okSel {
 			r.ok("B-PRIM", "before/after-flag", w.pos(c.Clause.Pos()), "the suffix is selected exactly for substring-after")
 		} else {
@@ -1097,4 +1108,82 @@ func (w *World) primViaInterp(factory *ssa.Function, prim string, order []int) (
 		return false, ""
 	}
 	return true, fmt.Sprintf("followed with symbolic arguments, every non-constant result is %s(...) of the arguments in order (%d paths)", prim, n)
+}
+
+// beforeAfterByInterp follows the implementations bound to substring-before
+// and substring-after, built with the arguments the function builder passes
+// for each name, on symbolic strings.
+func (w *World) beforeAfterByInterp() bool {
+	fb, _, err := w.functionBuilds()
+	if err != nil {
+		return false
+	}
+	sel, ev := w.selectMethod(), w.evaluateMethod()
+	_, _, strConv := w.conversionFns()
+	var hooks AHooks
+	hooks.Call = func(ai *AInterp, st *AState, site ssa.CallInstruction, callee *ssa.Function, args []AVal) (bool, AVal) {
+		com := site.Common()
+		if com.IsInvoke() && len(args) > 0 && args[0].Tag != "" {
+			switch {
+			case com.Method.Name() == ev && strings.HasPrefix(args[0].Tag, "q:"):
+				return true, AVal{Kind: avUnknown, Tag: "val:" + args[0].Tag}
+			case com.Method.Name() == sel:
+				return true, AVal{Kind: avUnknown, Tag: "node:" + args[0].Tag}
+			case strings.HasPrefix(args[0].Tag, "node:"):
+				return true, AVal{Kind: avUnknown, Tag: "str:" + args[0].Tag}
+			case w.isQueryType(com.Value.Type()) && strings.HasPrefix(args[0].Tag, "q:"):
+				return true, args[0]
+			}
+		}
+		if callee != nil && w.inPkg(callee) && callee.Signature.Recv() == nil && len(args) == 1 && strings.HasPrefix(args[0].Tag, "q:") && callee.Signature.Results().Len() == 1 && w.isQueryType(callee.Signature.Results().At(0).Type()) {
+			return true, args[0]
+		}
+		if callee != nil && callee.String() == strConv && len(args) == 2 {
+			return true, AVal{Kind: avUnknown, Tag: "str:" + args[1].Tag}
+		}
+		return false, AVal{}
+	}
+	judge := func(name string, wantSuffix bool) bool {
+		n := 0
+		for _, o := range fb[fnBuildKey{name, 2}] {
+			if !o.Accepted || o.Result.Kind != avPtr {
+				continue
+			}
+			// the factory call that produced the function of the built query
+			for _, fc := range o.Calls {
+				ai := w.newInterp(hooks)
+				for _, fo := range ai.Exec(fc.Fn, fc.Args, nil, w.initState()) {
+					if fo.Cut || fo.Panicked || fo.Ret.Kind != avFunc {
+						return false
+					}
+					var cargs []AVal
+					for range fo.Ret.Fn.Params {
+						cargs = append(cargs, aUnknown(nil))
+					}
+					for _, co := range ai.Exec(fo.Ret.Fn, cargs, fo.Ret.Bind, fo.St) {
+						if co.Cut {
+							return false
+						}
+						if co.Panicked || co.Ret.isConst() || co.Ret.Kind == avNil {
+							continue
+						}
+						e := co.Ret.Expr
+						if os.Getenv("XPDEBUG") != "" {
+							fmt.Println("before/after", name, co.Ret.String(), co.Ret.Tag)
+						}
+						if e == nil || e.Call != "slice" || len(e.Args) != 3 {
+							return false
+						}
+						lowSet, highSet := e.Args[1].Kind != avNil, e.Args[2].Kind != avNil
+						if wantSuffix && !(lowSet && !highSet) || !wantSuffix && !(!lowSet && highSet) {
+							return false
+						}
+						n++
+					}
+				}
+			}
+		}
+		return n > 0
+	}
+	return judge("substring-after", true) && judge("substring-before", false)
 }
